@@ -26,6 +26,13 @@ pub struct PbStats {
     pub diverged: Option<String>,
 }
 
+/// choices taken so far in the execution that is running now (read by the body when it records a
+/// deviation, so that the violation carries a replayable schedule)
+static CURRENT: Mutex<Vec<usize>> = Mutex::new(Vec::new());
+pub fn current_choices() -> Vec<usize> {
+    CURRENT.lock().unwrap().clone()
+}
+
 pub struct PbDfs {
     bound: usize,
     stack: Vec<Vec<usize>>,
@@ -94,6 +101,7 @@ impl PbDfs {
 
 impl Scheduler for PbDfs {
     fn new_execution(&mut self) -> Option<Schedule> {
+        CURRENT.lock().unwrap().clear();
         if let Some(s) = self.single.clone() {
             if self.started {
                 self.finish_execution();
@@ -149,6 +157,7 @@ impl Scheduler for PbDfs {
             0
         };
         self.record.push(Point { n_enabled: ids.len(), running_enabled, choice });
+        CURRENT.lock().unwrap().push(choice);
         Some(ids[choice])
     }
 
